@@ -69,7 +69,9 @@ impl<'v> MutableSlots<'v> {
     }
 
     pub fn get_slot(&self, slot: ModuleSlotId) -> Option<Value<'v>> {
-        self.0.borrow()[slot.0 as usize]
+        // A name may have a slot id without a slot: `eval_module` adds names during
+        // scope resolution and allocates the slots only if resolution succeeds.
+        self.0.borrow().get(slot.0 as usize).copied().flatten()
     }
 
     pub fn set_slot(&self, slot: ModuleSlotId, value: Value<'v>) {
@@ -113,6 +115,7 @@ impl<'v> MutableSlots<'v> {
 
 impl FrozenSlots {
     pub fn get_slot(&self, slot: ModuleSlotId) -> Option<FrozenValue> {
-        self.0[slot.0 as usize]
+        // See `MutableSlots::get_slot`.
+        self.0.get(slot.0 as usize).copied().flatten()
     }
 }
